@@ -221,7 +221,7 @@ Section Render.
         let st := set_cur [] (set_suppress false (set_skip false st)) in
         let '(t, _) := render_inls false c [] in
         let children := match checked with
-                        | Some b => [91%N] ++ (if b then [120%N] else [sp]) ++ [93; 32]%N ++ t
+                        | Some b => [91%N] ++ (if b then [120%N] else [sp]) ++ [93; 32]%N ++ lstrip t
                         | None => t
                         end in
         w <- wrapper children (r_prefix st) (r_prefix2 st) ;;
@@ -282,6 +282,7 @@ Section Render.
         match k with
         | KList ordered bullet start tight =>
             let st := set_skip false st in
+            let st := if str_eqb (r_prefix st) (r_prefix2 st) then st else set_suppress true st in
             let is_tight :=
               match spacing with
               | LPreserve => tight
